@@ -196,6 +196,8 @@ pub enum Submit {
 	DependentTwoParents,
 	/// a transaction that sits in the stempool is broadcast (what happens when its embargo expires)
 	FluffStemmed,
+	/// spends an output of the most recently pooled transaction
+	DependentOnNewest,
 	/// a no-recent-duplicate kernel with an excess never used before
 	NrdFresh,
 	/// an NRD kernel whose excess occurred in a block of the current chain fewer than
@@ -240,6 +242,7 @@ pub struct PoolSim<'w, P: PoolAdapter + 'static> {
 	/// world block id of the node's head
 	head: usize,
 	base_blocks: usize,
+	mark: crate::world::WorldMark,
 	pub log: Vec<String>,
 	pub step: u64,
 	pub probes: BTreeMap<String, u64>,
@@ -286,6 +289,7 @@ impl<'w> PoolSim<'w, SimRelay> {
 		}
 		events.lock().unwrap().clear();
 		let base_blocks = world.blocks.len();
+		let mark = world.mark();
 		Ok(PoolSim {
 			world,
 			chain,
@@ -300,6 +304,7 @@ impl<'w> PoolSim<'w, SimRelay> {
 			dir,
 			head: start,
 			base_blocks,
+			mark,
 			log: vec![],
 			step: 0,
 			probes: BTreeMap::new(),
@@ -345,6 +350,7 @@ impl<'w> PoolSim<'w, PoolToNetAdapter> {
 			rx.recv_timeout(std::time::Duration::from_secs(20)).map_err(|_| "mine_block::get_block did not return a block within 20 s (it retries for as long as building fails)".to_string())
 		});
 		let base_blocks = world.blocks.len();
+		let mark = world.mark();
 		let mut ps = PoolSim {
 			world,
 			chain,
@@ -359,6 +365,7 @@ impl<'w> PoolSim<'w, PoolToNetAdapter> {
 			dir,
 			head: start,
 			base_blocks,
+			mark,
 			log: vec![],
 			step: 0,
 			probes: BTreeMap::new(),
@@ -377,7 +384,8 @@ impl<'w, P: PoolAdapter + 'static> PoolSim<'w, P> {
 			l.shutdown();
 		}
 		let world = self.world;
-		world.blocks.truncate(base);
+		let _ = base;
+		world.reset_to(&self.mark);
 		drop(self.real_miner);
 		drop(self.link);
 		drop(self.pool);
@@ -918,16 +926,22 @@ impl<'w, P: PoolAdapter + 'static> PoolSim<'w, P> {
 					None
 				} else {
 					let n_out = rng.range(1, 3) as usize;
-					let fee = Self::plain_fee(ins.len(), n_out) + rng.below(5) * 1_000_000;
+					// (the fee bonus comes straight from the operation's seed, so that a schedule can ask for
+					// a transaction at the bare minimum - the first candidate for eviction - or above it)
+					let fee = Self::plain_fee(ins.len(), n_out) + (r % 5) * 1_000_000;
 					expect = Some(true);
 					self.make_spend(&ins, n_out, fee, None, &mut rng)
 				}
 			}
-			Submit::Dependent => {
-				// an output created by a pooled tx and not yet spent by another pooled tx
+			Submit::Dependent | Submit::DependentOnNewest => {
+				// an output created by a pooled tx (the most recently pooled one for DependentOnNewest) and
+				// not yet spent by another pooled tx
 				let used = self.pool_inputs();
 				let mut cands: Vec<OutInfo> = vec![];
-				let pooled_txs = self.pool.read().txpool.all_transactions();
+				let mut pooled_txs = self.pool.read().txpool.all_transactions();
+				if *kind == Submit::DependentOnNewest {
+					pooled_txs = pooled_txs.into_iter().rev().take(1).collect();
+				}
 				for t in pooled_txs {
 					for o in t.outputs() {
 						let k = ckey(&o.commitment());
@@ -943,8 +957,8 @@ impl<'w, P: PoolAdapter + 'static> PoolSim<'w, P> {
 				} else {
 					let x = rng.pick(&cands).clone();
 					expect = Some(true);
-					self.probe("dependent_chain_submitted");
-					self.make_spend(&[x], 1, Self::plain_fee(1, 1), None, &mut rng)
+					self.probe(if *kind == Submit::DependentOnNewest { "dependent_on_newest_submitted" } else { "dependent_chain_submitted" });
+					self.make_spend(&[x], 1, Self::plain_fee(1, 1) + (r % 5) * 1_000_000, None, &mut rng)
 				}
 			}
 			Submit::FluffStemmed => {
@@ -979,7 +993,7 @@ impl<'w, P: PoolAdapter + 'static> PoolSim<'w, P> {
 					rng.shuffle(&mut per_tx);
 					expect = Some(true);
 					self.probe("two_parent_child_submitted");
-					self.make_spend(&[per_tx[0].clone(), per_tx[1].clone()], 1, Self::plain_fee(2, 1), None, &mut rng)
+					self.make_spend(&[per_tx[0].clone(), per_tx[1].clone()], 1, Self::plain_fee(2, 1) + (r % 5) * 1_000_000, None, &mut rng)
 				}
 			}
 			Submit::Conflict => {
@@ -1104,7 +1118,7 @@ impl<'w, P: PoolAdapter + 'static> PoolSim<'w, P> {
 			}
 			Submit::LockFuture | Submit::LockNext => {
 				if let Some(x) = free.first().cloned() {
-					let lh = if *kind == Submit::LockFuture { next_h + 1 + rng.below(3) } else { next_h };
+					let lh = if *kind == Submit::LockFuture { next_h + 1 + (r % 3) } else { next_h };
 					expect = Some(*kind == Submit::LockNext);
 					let fee = Self::plain_fee(1, 1);
 					let f = KernelFeatures::HeightLocked {
@@ -1415,14 +1429,27 @@ pub fn gen_ops(rng: &mut SimRng, thorough: bool) -> Vec<Op> {
 	// the current size and an under-fee fluff transaction (and a valid one, which evicts) follow
 	let at = (ops.len() / 2 + rng.usize_below(ops.len() / 2 + 1)).min(ops.len());
 	let mut tail = vec![];
-	if rng.chance(1, 2) {
-		// a fluff child of two pooled parents: eviction must not leave it behind without them
-		tail.push(Op::Submit { kind: Submit::Valid, stem: false, r: rng.next_u64() });
-		tail.push(Op::Submit { kind: Submit::Valid, stem: false, r: rng.next_u64() });
-		tail.push(Op::Submit { kind: Submit::DependentTwoParents, stem: false, r: rng.next_u64() });
+	// r with a chosen remainder: r % 5 is a transaction's fee bonus, r % 3 a LockFuture's distance
+	let r_mod = |rng: &mut SimRng, m: u64, v: u64| -> u64 {
+		let r = rng.next_u64() >> 1;
+		r - (r % m) + v
+	};
+	let family = rng.chance(1, 2);
+	if family {
+		// two parents at the bare minimum fee (the youngest of the cheapest is what eviction takes), a
+		// fluff child of both, and a grandchild: eviction must not leave descendants behind
+		tail.push(Op::Submit { kind: Submit::Valid, stem: false, r: r_mod(rng, 5, 0) });
+		tail.push(Op::Submit { kind: Submit::Valid, stem: false, r: r_mod(rng, 5, 0) });
+		tail.push(Op::Submit { kind: Submit::DependentTwoParents, stem: false, r: r_mod(rng, 5, 3) });
+		tail.push(Op::Submit { kind: Submit::DependentOnNewest, stem: false, r: r_mod(rng, 5, 4) });
+		tail.push(Op::ShrinkCapacity { to: rng.range(0, 2) as usize });
+		tail.push(Op::Submit { kind: Submit::Valid, stem: false, r: r_mod(rng, 5, 4) });
 	}
-	// headers of one fork ahead of the blocks of another: the pool judges maturity against the blocks
+	// headers of one fork ahead of the blocks of another: the pool judges maturity and lock heights
+	// against the blocks (a lock height of exactly the height the header chain has reached is in the future)
 	tail.push(Op::HeaderAhead { r: rng.next_u64() });
+	tail.push(Op::Submit { kind: Submit::LockFuture, stem: false, r: r_mod(rng, 3, 0) });
+	tail.push(Op::Submit { kind: Submit::LockNext, stem: false, r: rng.next_u64() });
 	tail.push(Op::Reorg { depth: rng.range(2, 3), r: rng.next_u64() });
 	tail.push(Op::Submit { kind: Submit::JustMatureCoinbase, stem: false, r: rng.next_u64() });
 	tail.push(Op::Submit { kind: Submit::ImmatureCoinbase, stem: false, r: rng.next_u64() });
